@@ -1,22 +1,227 @@
-//! Profiles with their own special events: C13 snap, C14 sticky, C20 weak, C11 events, C12 undo.
+//! Dispatch for the profiles with their own special events: C13 snap (here), C14 sticky / C20 weak
+//! (stickymon.rs), C11 events (eventsmon.rs), C12 undo (undomon.rs).
 
 use crate::monitors::TxnKind;
 use crate::world::*;
+use yrs::updates::decoder::Decode;
+use yrs::updates::encoder::{Encode, Encoder, EncoderV1, EncoderV2};
+use yrs::{ReadTxn, Snapshot, Transact};
 
-pub fn pre_txn(_w: &mut World, _n: usize) {}
+pub struct SnapRec {
+    pub node: usize,
+    pub snap: Snapshot,
+    pub dump: String,
+    pub eid: u32,
+    /// the source had a stash or a gap when the snapshot was taken
+    pub gappy: bool,
+}
 
-pub fn post_txn(_w: &mut World, _n: usize, _kind: &TxnKind, _uid: Option<usize>) -> VResult {
+#[derive(Default)]
+pub struct AnchorState {
+    pub snaps: Vec<SnapRec>,
+}
+
+pub fn pre_txn(w: &mut World, n: usize) {
+    match w.cfg.profile.as_str() {
+        "sticky" | "weak" => crate::stickymon::pre_txn(w, n),
+        "events" => crate::eventsmon::pre_txn(w, n),
+        "undo" => crate::undomon::pre_txn(w, n),
+        _ => {}
+    }
+}
+
+pub fn post_txn(w: &mut World, n: usize, kind: &TxnKind, uid: Option<usize>) -> VResult {
+    match w.cfg.profile.as_str() {
+        "sticky" | "weak" => crate::stickymon::post_txn(w, n, kind, uid),
+        "events" => crate::eventsmon::post_txn(w, n, kind, uid),
+        "undo" => crate::undomon::post_txn(w, n, kind, uid),
+        "snap" => crate::monitors::check_closed_as(w, n, "snap"),
+        _ => Ok(()),
+    }
+}
+
+pub fn at_quiescence(w: &mut World) -> VResult {
+    match w.cfg.profile.as_str() {
+        "snap" => {
+            for i in 0..w.mon.anchors.snaps.len() {
+                restore(w, i, 0)?;
+                restore(w, i, 3)?;
+            }
+            Ok(())
+        }
+        "sticky" | "weak" => crate::stickymon::at_quiescence(w),
+        "events" => crate::eventsmon::at_quiescence(w),
+        "undo" => crate::undomon::at_quiescence(w),
+        _ => Ok(()),
+    }
+}
+
+fn sp(n: usize, k: &str, a: Vec<u64>) -> Ev {
+    Ev::Special {
+        n,
+        k: k.to_string(),
+        a,
+        s: vec![],
+    }
+}
+
+pub fn draw(w: &mut World) -> Option<Ev> {
+    match w.cfg.profile.as_str() {
+        "snap" => {
+            let n = w.rng.idx(w.nodes.len());
+            if w.mon.anchors.snaps.is_empty() || w.rng.chance(50) {
+                Some(sp(n, "snapshot", vec![]))
+            } else {
+                let i = w.rng.below(w.mon.anchors.snaps.len() as u64);
+                Some(sp(n, "restore", vec![i, w.rng.below(4)]))
+            }
+        }
+        "sticky" | "weak" => crate::stickymon::draw(w),
+        "events" => crate::eventsmon::draw(w),
+        "undo" => crate::undomon::draw(w),
+        _ => None,
+    }
+}
+
+pub fn exec(w: &mut World, n: usize, k: &str, a: &[u64], s: &[String]) -> VResult {
+    match (w.cfg.profile.as_str(), k) {
+        ("snap", "snapshot") => snapshot(w, n),
+        ("snap", "restore") => {
+            let i = a.first().copied().unwrap_or(0) as usize;
+            if w.mon.anchors.snaps.is_empty() {
+                return Ok(());
+            }
+            let i = i % w.mon.anchors.snaps.len();
+            restore(w, i, a.get(1).copied().unwrap_or(0))
+        }
+        ("sticky", _) | ("weak", _) => crate::stickymon::exec(w, n, k, a, s),
+        ("events", _) => crate::eventsmon::exec(w, n, k, a, s),
+        ("undo", _) => crate::undomon::exec(w, n, k, a, s),
+        _ => Ok(()),
+    }
+}
+
+// ---- C13 -----------------------------------------------------------------------------------------
+
+fn snapshot(w: &mut World, n: usize) -> VResult {
+    let doc = w.nodes[n].doc.clone();
+    let t = doc.transact();
+    let snap = t.snapshot();
+    if !w.nodes[n].cfg.skip_gc {
+        // on a GC-enabled document the request must be refused
+        let mut enc = EncoderV1::new();
+        w.stats.oracle_evals += 1;
+        return match t.encode_state_from_snapshot(&snap, &mut enc) {
+            Err(_) => Ok(()),
+            Ok(()) => Err(viol(
+                "snap.gc-not-refused",
+                format!("node {} has GC enabled but encode_state_from_snapshot succeeded", n),
+            )),
+        };
+    }
+    // a replica with a stash or a gap is not a state "the document was in" for this purpose: the
+    // snapshot's state vector stops at the first gap
+    let gappy = t.has_missing_updates() || yrs::verif::has_skips(t.store());
+    let dump = crate::dump::dump_doc(&t);
+    drop(t);
+    w.mon.anchors.snaps.push(SnapRec {
+        node: n,
+        snap,
+        dump,
+        eid: w.cur_eid,
+        gappy,
+    });
     Ok(())
 }
 
-pub fn at_quiescence(_w: &mut World) -> VResult {
-    Ok(())
-}
-
-pub fn draw(_w: &mut World) -> Option<Ev> {
-    None
-}
-
-pub fn exec(_w: &mut World, _n: usize, _k: &str, _a: &[u64], _s: &[String]) -> VResult {
+fn restore(w: &mut World, i: usize, mode: u64) -> VResult {
+    let (node, snap, dump, eid, gappy) = {
+        let r = &w.mon.anchors.snaps[i];
+        (r.node, r.snap.clone(), r.dump.clone(), r.eid, r.gappy)
+    };
+    let v2 = mode & 1 == 1;
+    // the snapshot survives its own encode/decode
+    let snap_used = if mode & 2 == 2 {
+        let rt = if v2 {
+            Snapshot::decode_v2(&snap.encode_v2())
+        } else {
+            Snapshot::decode_v1(&snap.encode_v1())
+        };
+        match rt {
+            Ok(s) => {
+                if s != snap {
+                    return Err(viol(
+                        "snap.roundtrip",
+                        format!("snapshot taken at event {} on node {} changed by encode/decode ({})", eid, node, if v2 { "v2" } else { "v1" }),
+                    ));
+                }
+                s
+            }
+            Err(e) => {
+                return Err(viol(
+                    "snap.roundtrip",
+                    format!("snapshot taken at event {} on node {} cannot be decoded after encoding: {}", eid, node, e),
+                ))
+            }
+        }
+    } else {
+        snap.clone()
+    };
+    let doc = w.nodes[node].doc.clone();
+    if doc.skip_gc() != true {
+        return Ok(());
+    }
+    let bytes = {
+        let t = doc.transact();
+        if v2 {
+            let mut enc = EncoderV2::new();
+            t.encode_state_from_snapshot(&snap_used, &mut enc).map(|_| enc.to_vec())
+        } else {
+            let mut enc = EncoderV1::new();
+            t.encode_state_from_snapshot(&snap_used, &mut enc).map(|_| enc.to_vec())
+        }
+    };
+    w.stats.oracle_evals += 1;
+    let bytes = match bytes {
+        Ok(b) => b,
+        Err(e) => {
+            return Err(viol(
+                "snap.restore",
+                format!("encode_state_from_snapshot failed on a no-GC document: {}", e),
+            ))
+        }
+    };
+    let fresh = passive_doc(true, w.nodes[node].cfg.utf16);
+    let p = if v2 {
+        Payload { v1: vec![], v2: bytes }
+    } else {
+        Payload { v1: bytes, v2: vec![] }
+    };
+    if let Err(e) = apply_payload(&fresh, &p, if v2 { Enc::V2 } else { Enc::V1 }) {
+        return Err(viol(
+            "snap.restore",
+            format!(
+                "the state encoded from the snapshot taken at event {} on node {} cannot be applied to an empty document ({}): {}",
+                eid,
+                node,
+                if v2 { "v2" } else { "v1" },
+                e
+            ),
+        ));
+    }
+    let got = doc_dump(&fresh);
+    if got != dump {
+        return Err(viol(
+            if gappy { "snap.restore-gappy" } else { "snap.restore" },
+            format!(
+                "snapshot taken at event {} on node {}, restored now ({}): content differs from what the document showed then\n  restored: {}\n  recorded: {}",
+                eid,
+                node,
+                if v2 { "v2" } else { "v1" },
+                got,
+                dump
+            ),
+        ));
+    }
     Ok(())
 }
